@@ -315,7 +315,7 @@ func isGlobal(v *pw.Val, name string) bool {
 func (c *Ctx) c14Register() {
 	r := c.R
 	_, paths, _, err := c.runFunc("GobRegister", pw.Policy{Inline: func(fn *types.Func, d int) bool {
-		return inlineUnexported(fn, d) && fn.Name() != "recursiveTypeHash"
+		return inlineUnexported(fn, d) && !strings.HasSuffix(pw.FuncName(fn), ".recursiveTypeHash")
 	}})
 	if err != nil {
 		r.Unknown("R14.3", "GobRegister", err.Error())
@@ -479,11 +479,11 @@ func (c *Ctx) c14Register() {
 				if obj == nil || obj.Parent() != c.Pkg.Types.Scope() {
 					continue
 				}
-				if obj.Name() == "gobTypesHash" || obj.Name() == "gobTypes" {
+				if gn := pw.GlobalName(obj); gn == "gobTypesHash" || gn == "gobTypes" {
 					if writers[name] == nil {
 						writers[name] = map[string]token.Pos{}
 					}
-					writers[name][obj.Name()] = as.Pos()
+					writers[name][gn] = as.Pos()
 				}
 			}
 			return true
